@@ -15,7 +15,7 @@ CHECKS = {
   "The bound is a claim over all inputs of a length; the patterns are the known worst cases (incompressible, flat, 9-bit literals, alternating). Known finding F5 (exact fit on raw streams returns Z_OK; shared with zlib-ng) is reported as KNOWN-FINDING.",
   TECH),
  "C10": ("model_checking",
-  "Twin executions over the shared families: every CPU-feature mask (hook H1), allocator and output-buffer garbage, buffer misalignment, default allocator, reuse after reset with a different earlier history - all compared call by call with the reference execution; threads: a controlled scheduler (baton, sequentially consistent) runs 2-3 real threads with scheduling points at API call boundaries and at the library's CPU-feature probes and enumerates all schedules with at most 2 (3) preemptions (iterative preemption bounding), each thread compared with its solo run.",
+  "Twin executions over the shared families: every CPU-feature mask (hook H1), allocator and output-buffer garbage, buffer misalignment, default allocator, reuse after reset with a different earlier history (compressor: two histories then the same payload; decoder: 30 earlier histories, then every short corpus stream incl. invalid ones reaching before their own start, against a fresh decoder) - all compared call by call with the reference execution; threads: a controlled scheduler (baton, sequentially consistent) runs 2-3 real threads with scheduling points at API call boundaries and at the library's CPU-feature probes and enumerates all schedules with at most 2 (3) preemptions (iterative preemption bounding: every schedule with k preemptions is run before any with k+1, so a cap leaves a completed bound, which the evidence reports per thread set), each thread compared with its solo run.",
   "Trusted: hooks H1/H1b (mask, probe hook, cache reset). Not covered: plain-memory data races that no instrumented serialisation exposes (no race detector pass), AVX-512/NEON variants. A schedule cap is reported in the evidence when hit.",
   "twin differential executions + exhaustive preemption-bounded schedule enumeration under a controlled scheduler"),
  "C11": ("model_checking",
@@ -27,11 +27,11 @@ CHECKS = {
   "Totals after Z_NEED_DICT are not judged (zlib is self-inconsistent there).",
   TECH),
  "C18": ("fault_enumeration",
-  "Fault enumeration over ~70 C-API call histories (init/calls/end, copies mid-stream, reset/params/dictionary, several streams sharing one allocator, inflateBack) and ~40 gz-layer histories: each is run once to count its N allocation requests and then once for every k with only request k failing and once for every k with all requests from k failing. Guard-paged allocator with freed blocks unmapped (use-after-free faults), byte-balanced global allocator for gz. Oracle: the faulted call reports Z_MEM_ERROR / NULL / error, End on the faulted stream is safe and releases nothing foreign, re-initialisation works, everything is released exactly once, a bystander stream is unaffected.",
+  "Fault enumeration over ~70 C-API call histories (init/calls/end, copies mid-stream, reset/params/dictionary, several streams sharing one allocator, inflateBack) and the gz layer (every history of <= 2 (3) operations over 10 read / 9 write operations x 7 file contents - gzip, plain, empty, one byte, two members, trailing garbage, truncated - / 4 open modes x {fd, path}): each is run once to count its N allocation requests and then once for every k with only request k failing and once for every k with all requests from k failing. Guard-paged allocator with freed blocks unmapped (use-after-free faults), byte-balanced global allocator for gz. Oracle: the faulted call reports Z_MEM_ERROR / NULL / error (gz: through its return value or gzerror), End on the faulted stream is safe and releases nothing foreign, re-initialisation works, everything is released exactly once, a bystander stream is unaffected.",
   "Trusted: the harness allocators. Histories outside the enumerated set and independent double faults other than fail-from-k are not covered.",
   "exhaustive single-fault and fail-from-k enumeration over a fixed set of call histories"),
  "C14": ("model_checking",
-  "Explicit enumeration of (prefix program up to depth 2 (3), branching point, suffix program up to depth 2) on compression (7 configurations incl. copy mid-gzip-header) and decompression (5 data sets incl. after an error, mid-header, inside a partially copied match): at the branching point the stream is duplicated and the suffix is run on both streams in alternation / with the original ended first / with the copy ended first, freed allocations being unmapped so that any sharing faults; every call's observables must equal those of the uncopied program. Likewise prefix ; reset ; suffix against a freshly initialised stream with the same parameters (C API and Rust reset methods).",
+  "Explicit enumeration of (prefix program up to depth 2 (3), branching point, suffix program up to depth 2) on compression (7 configurations incl. copy mid-gzip-header) and decompression (5 data sets incl. after an error, mid-header, inside a partially copied match): at the branching point the stream is duplicated and the suffix is run on both streams in alternation / with the original ended first / with the copy ended first, freed allocations being unmapped so that any sharing faults; every call's observables must equal those of the uncopied program. Likewise prefix ; reset ; suffix against a freshly initialised stream with the same parameters (C API and Rust reset methods); a decoder reset after each of 30 earlier histories is given every short corpus stream (valid and invalid) and compared with a fresh decoder.",
   "Trusted: the harness. Parameters that zlib keeps across a reset (level/strategy set by deflateParams, inflateValidate) are applied to the fresh stream too; the adler field of raw inflate streams is not compared.",
   "explicit enumeration of branching call histories, differential against the unbranched execution"),
  "C16": ("model_checking",
@@ -51,11 +51,11 @@ CHECKS = {
   "Trusted: the harness; guard pages see every access beyond a buffer end/start but not overruns inside one allocation smaller than the allocator slack. Not covered: multi-fault corruptions, strings outside the corpus.",
   TECH),
  "C03": ("model_checking",
-  "Bounded exhaustive enumeration of byte strings (R4 corpus: all token programs <= 3 tokens, all complete codes on <= 5 symbols, extremes, faults; all wrappers; every truncation / bit flip / garbage suffix; all strings <= 2 (3) bytes) x all windowBits modes; verdict, output and consumed length compared with the reference decoder R2+R3, zlib-ng as tie-breaker.",
+  "Bounded exhaustive enumeration of byte strings (R4 corpus: all token programs <= 3 tokens, all complete codes on <= 5 symbols, extremes, faults, blocks using codes they do not define alone and after blocks with rich tables, long streams using every codeword length 1..15 in the fast loops; all wrappers; every truncation / bit flip / garbage suffix; all strings <= 2 (3) bytes) x all windowBits modes; verdict, output and consumed length compared with the reference decoder R2+R3, zlib-ng as tie-breaker.",
   "Trusted: R2/R3/R4 (self-tested against zlib-ng). Three-way disagreements where zlib-ng sides with zlib-rs are reported in the evidence as model_divergence (currently 0).",
   TECH),
  "C04": ("model_checking",
-  "For every corpus stream (valid, invalid, truncated) the one-call run is the reference execution; all compositions of the input (<= 9/12 bytes), every single split, 1-byte pieces, boundary output rooms and all five flush values (uniform and at one call) must reproduce its output, verdict and consumed length. Decoder resume states are observed through hook H2 and the run is rejected as vacuous unless every resumable mode was entered.",
+  "For every corpus stream (valid, invalid, truncated) the one-call run is the reference execution; all compositions of the input (<= 9/12 bytes), every single split, 1-byte pieces, boundary output rooms, EVERY position of the first output-buffer end and every uniform room 4..300 (intact streams <= 700 bytes out) and all five flush values (uniform and at one call) must reproduce its output, verdict and consumed length. Decoder resume states are observed through hook H2 and the run is rejected as vacuous unless every resumable mode was entered.",
   "Trusted: hook H2 (read-only), the harness. Not covered: more than one split on streams > 12 bytes, streams outside the corpus.",
   "bounded exhaustive enumeration of call schedules, differential against the one-call execution"),
  "C08": ("model_checking",
